@@ -75,11 +75,19 @@ var defaultOptions = &Options{
 	formatOptions:      map[string]interface{}{},
 }
 
+// newDefaultOptions returns a new options set loaded with the default values
+func newDefaultOptions() *Options {
+	return &Options{
+		UnserializeOptions: &native.UnserializeOptions{},
+		formatOptions:      map[string]interface{}{},
+	}
+}
+
 func New(opts ...ReaderOption) *Reader {
 	r := &Reader{
 		sniffer: &formats.Sniffer{},
 		Storage: storage.NewFileSystem(),
-		Options: defaultOptions,
+		Options: newDefaultOptions(),
 	}
 
 	for _, opt := range opts {
